@@ -1,10 +1,11 @@
 from collections.abc import Iterable
+from copy import deepcopy
 import numbers
 
 import numpy as np
 
 from qutip import Qobj, QobjEvo, tensor, mesolve, basis
-from ..operations import globalphase
+from ..operations import Gate, globalphase
 from ..circuit import QubitCircuit
 from .processor import Processor
 from ..compiler import GateCompiler
@@ -196,6 +197,8 @@ class ModelProcessor(Processor):
         qc: :class:`.QubitCircuit`
             The transpiled quantum circuit.
         """
+        if self.native_gates is not None:
+            qc = self._decompose_multi_qubit_gates(qc)
         try:
             qc = self.topology_map(qc)
         except NotImplementedError:
@@ -203,6 +206,25 @@ class ModelProcessor(Processor):
         if self.native_gates is not None:
             qc = qc.resolve_gates(basis=self.native_gates)
         return qc
+
+    @staticmethod
+    def _decompose_multi_qubit_gates(qc):
+        """
+        Decompose the gates acting on more than two qubits
+        (e.g. TOFFOLI, FREDKIN) into CNOT and single-qubit rotations.
+        The topology mapping only rearranges two-qubit gates, it has to see
+        the two-qubit gates those decompositions consist of.
+        """
+        qc_t = deepcopy(qc)
+        qc_t.gates = []
+        for gate in qc.gates:
+            if isinstance(gate, Gate) and len(gate.get_all_qubits()) > 2:
+                temp = QubitCircuit(qc.N)
+                temp.add_gate(gate)
+                qc_t.gates.extend(temp.resolve_gates("CNOT").gates)
+            else:
+                qc_t.gates.append(gate)
+        return qc_t
 
     def load_circuit(self, qc, schedule_mode="ASAP", compiler=None):
         """
